@@ -1,3 +1,1916 @@
-//! end-to-end GPOS oracles (stub)
+//! End-to-end GPOS oracles for C16.
+//!
+//! Input rules are fed to the real builders (`PairPosBuilder`, `MarkToBaseBuilder`), the
+//! resulting *unsplit* write-fonts subtables are put into a `Gpos`, compiled with
+//! `dump_table` (graph packing: subtable splitting + extension promotion), read back with
+//! read-fonts and evaluated by a reference lookup walker (first matching subtable wins).
+//! The same walker runs over the unsplit write-fonts structs and, where the semantics are
+//! unambiguous, the results are compared with the input rules themselves.
+//!
+//! Every scenario is a pure function of `(kind, permille, variant, rng-state)`; the tag
+//! `e2e[kind:permille:variant:0xSTATE]` in a failure report can be replayed in isolation with
+//! `C16_E2E_REPLAY=kind:permille:variant:0xSTATE`.  `C16_E2E_VERBOSE=1` prints per-scenario
+//! sizes and timings to stderr (never influences behaviour).
+#![allow(clippy::too_many_arguments, clippy::type_complexity)]
+
 use fv_harness::common::*;
-pub fn run(_cfg: &Config, _s: &mut Session, _rng: &mut Rng) {}
+use font_types::GlyphId16;
+use read_fonts::array::ComputedArray;
+use read_fonts::collections::IntSet;
+use read_fonts::tables::gpos as rg;
+use read_fonts::tables::layout as rl;
+use read_fonts::{FontData, FontRead, ReadError};
+use std::collections::{BTreeMap, BTreeSet};
+use write_fonts::tables::gpos as wg;
+use write_fonts::tables::gpos::builders::{
+    AnchorBuilder, MarkToBaseBuilder, PairPosBuilder, ValueRecordBuilder,
+};
+use write_fonts::tables::layout as wl;
+use write_fonts::tables::layout::builders::{Builder, DeviceOrDeltas, LookupBuilder, Metric};
+use write_fonts::tables::variations::ivs_builder::VariationStoreBuilder;
+
+fn g16(v: u16) -> GlyphId16 {
+    GlyphId16::new(v)
+}
+
+// ---------------------------------------------------------------------------------------
+// canonical, comparable values
+// ---------------------------------------------------------------------------------------
+
+#[derive(Clone, Debug, PartialEq, Eq, Default)]
+enum Dev {
+    #[default]
+    None,
+    Device { start: u16, end: u16, fmt: u16, words: Vec<u16> },
+    VarIdx(u16, u16),
+    Bad(String),
+}
+
+impl Dev {
+    fn show(&self) -> String {
+        match self {
+            Dev::None => "-".into(),
+            Dev::Device { start, end, fmt, words } => {
+                let w: Vec<String> = words.iter().map(|w| format!("{w:04x}")).collect();
+                format!("D({start}-{end} f{fmt} {})", w.join("."))
+            }
+            Dev::VarIdx(o, i) => format!("V({o},{i})"),
+            Dev::Bad(e) => format!("BAD({e})"),
+        }
+    }
+}
+
+/// value record: [x_placement, y_placement, x_advance, y_advance] (absent == 0) + the 4 devices
+#[derive(Clone, Debug, PartialEq, Eq, Default)]
+struct VR {
+    v: [i16; 4],
+    d: [Dev; 4],
+}
+
+impl VR {
+    fn is_zero(&self) -> bool {
+        self.v == [0; 4] && self.d.iter().all(|d| *d == Dev::None)
+    }
+    fn show(&self) -> String {
+        let mut s = format!("{},{},{},{}", self.v[0], self.v[1], self.v[2], self.v[3]);
+        if self.d.iter().any(|d| *d != Dev::None) {
+            let d: Vec<String> = self.d.iter().map(|d| d.show()).collect();
+            s.push_str(&format!(";{}", d.join(",")));
+        }
+        s
+    }
+}
+
+type PV = (VR, VR);
+
+fn show_pv(p: &Option<PV>) -> String {
+    match p {
+        None => "nothing".into(),
+        Some((a, b)) => format!("[{} | {}]", a.show(), b.show()),
+    }
+}
+
+/// "nothing" and an all-zero, device-free value pair have the same effect
+fn pv_effective_eq(a: &Option<PV>, b: &Option<PV>) -> bool {
+    let z = |o: &Option<PV>| match o {
+        None => true,
+        Some((x, y)) => x.is_zero() && y.is_zero(),
+    };
+    a == b || (z(a) && z(b))
+}
+
+#[derive(Clone, Debug, PartialEq, Eq)]
+struct Anc {
+    x: i16,
+    y: i16,
+    pt: Option<u16>,
+    xd: Dev,
+    yd: Dev,
+}
+
+impl Anc {
+    fn show(&self) -> String {
+        let mut s = format!("({},{}", self.x, self.y);
+        if let Some(p) = self.pt {
+            s.push_str(&format!(" pt{p}"));
+        }
+        if self.xd != Dev::None || self.yd != Dev::None {
+            s.push_str(&format!(" {} {}", self.xd.show(), self.yd.show()));
+        }
+        s.push(')');
+        s
+    }
+}
+
+type MB = (Anc, Anc);
+
+fn show_mb(p: &Option<MB>) -> String {
+    match p {
+        None => "nothing".into(),
+        Some((m, b)) => format!("mark{} base{}", m.show(), b.show()),
+    }
+}
+
+// ---- read-fonts side ----
+
+fn dev_r(d: Option<Result<rl::DeviceOrVariationIndex<'_>, ReadError>>) -> Dev {
+    match d {
+        None => Dev::None,
+        Some(Err(e)) => Dev::Bad(format!("{e:?}")),
+        Some(Ok(rl::DeviceOrVariationIndex::Device(d))) => Dev::Device {
+            start: d.start_size(),
+            end: d.end_size(),
+            fmt: d.delta_format() as u16,
+            words: d.delta_value().iter().map(|w| w.get()).collect(),
+        },
+        Some(Ok(rl::DeviceOrVariationIndex::VariationIndex(v))) => {
+            Dev::VarIdx(v.delta_set_outer_index(), v.delta_set_inner_index())
+        }
+    }
+}
+
+fn vr_r(v: &rg::ValueRecord, data: FontData) -> VR {
+    VR {
+        v: [
+            v.x_placement().unwrap_or(0),
+            v.y_placement().unwrap_or(0),
+            v.x_advance().unwrap_or(0),
+            v.y_advance().unwrap_or(0),
+        ],
+        d: [
+            dev_r(v.x_placement_device(data)),
+            dev_r(v.y_placement_device(data)),
+            dev_r(v.x_advance_device(data)),
+            dev_r(v.y_advance_device(data)),
+        ],
+    }
+}
+
+fn anc_r(a: &rg::AnchorTable) -> Anc {
+    let pt = match a {
+        rg::AnchorTable::Format2(t) => Some(t.anchor_point()),
+        _ => None,
+    };
+    Anc { x: a.x_coordinate(), y: a.y_coordinate(), pt, xd: dev_r(a.x_device()), yd: dev_r(a.y_device()) }
+}
+
+// ---- write-fonts (unsplit) side ----
+
+fn device_w(d: &wl::Device) -> Dev {
+    Dev::Device { start: d.start_size, end: d.end_size, fmt: d.delta_format as u16, words: d.delta_value.clone() }
+}
+
+fn dev_w(d: Option<&wl::DeviceOrVariationIndex>) -> Dev {
+    match d {
+        None => Dev::None,
+        Some(wl::DeviceOrVariationIndex::Device(d)) => device_w(d),
+        Some(wl::DeviceOrVariationIndex::VariationIndex(v)) => {
+            Dev::VarIdx(v.delta_set_outer_index, v.delta_set_inner_index)
+        }
+        Some(wl::DeviceOrVariationIndex::PendingVariationIndex(_)) => Dev::Bad("pending".into()),
+    }
+}
+
+/// what the write-fonts record serialises to (fields outside the record's format are dropped)
+fn vr_w(v: &wg::ValueRecord) -> VR {
+    use wg::ValueFormat as F;
+    let f = v.format();
+    let val = |x: Option<i16>, flag: F| if f.contains(flag) { x.unwrap_or(0) } else { 0 };
+    let dev = |x: Option<&wl::DeviceOrVariationIndex>, flag: F| if f.contains(flag) { dev_w(x) } else { Dev::None };
+    VR {
+        v: [
+            val(v.x_placement, F::X_PLACEMENT),
+            val(v.y_placement, F::Y_PLACEMENT),
+            val(v.x_advance, F::X_ADVANCE),
+            val(v.y_advance, F::Y_ADVANCE),
+        ],
+        d: [
+            dev(v.x_placement_device.as_ref(), F::X_PLACEMENT_DEVICE),
+            dev(v.y_placement_device.as_ref(), F::Y_PLACEMENT_DEVICE),
+            dev(v.x_advance_device.as_ref(), F::X_ADVANCE_DEVICE),
+            dev(v.y_advance_device.as_ref(), F::Y_ADVANCE_DEVICE),
+        ],
+    }
+}
+
+fn anc_w(a: &wg::AnchorTable) -> Anc {
+    match a {
+        wg::AnchorTable::Format1(t) => Anc { x: t.x_coordinate, y: t.y_coordinate, pt: None, xd: Dev::None, yd: Dev::None },
+        wg::AnchorTable::Format2(t) => {
+            Anc { x: t.x_coordinate, y: t.y_coordinate, pt: Some(t.anchor_point), xd: Dev::None, yd: Dev::None }
+        }
+        wg::AnchorTable::Format3(t) => Anc {
+            x: t.x_coordinate,
+            y: t.y_coordinate,
+            pt: None,
+            xd: dev_w(t.x_device.as_ref()),
+            yd: dev_w(t.y_device.as_ref()),
+        },
+    }
+}
+
+// ---- builder (input rule) side ----
+
+fn dev_b(d: &DeviceOrDeltas) -> Dev {
+    match d {
+        DeviceOrDeltas::None => Dev::None,
+        DeviceOrDeltas::Device(d) => device_w(d),
+        DeviceOrDeltas::Deltas(_) => Dev::Bad("deltas".into()),
+    }
+}
+
+fn metric_b(m: &Option<Metric>) -> (i16, Dev) {
+    match m {
+        None => (0, Dev::None),
+        Some(m) => (m.default, dev_b(&m.device_or_deltas)),
+    }
+}
+
+fn vr_b(v: &ValueRecordBuilder) -> VR {
+    let (xp, xpd) = metric_b(&v.x_placement);
+    let (yp, ypd) = metric_b(&v.y_placement);
+    let (xa, xad) = metric_b(&v.x_advance);
+    let (ya, yad) = metric_b(&v.y_advance);
+    VR { v: [xp, yp, xa, ya], d: [xpd, ypd, xad, yad] }
+}
+
+/// documented: the contour point is ignored when a device is present
+fn anc_b(a: &AnchorBuilder) -> Anc {
+    let xd = dev_b(&a.x.device_or_deltas);
+    let yd = dev_b(&a.y.device_or_deltas);
+    let pt = if xd == Dev::None && yd == Dev::None { a.contourpoint } else { None };
+    Anc { x: a.x.default, y: a.y.default, pt, xd, yd }
+}
+
+// ---------------------------------------------------------------------------------------
+// the compiled table (read-fonts)
+// ---------------------------------------------------------------------------------------
+
+enum CSub<'a> {
+    P1 { t: rg::PairPosFormat1<'a>, cov: rl::CoverageTable<'a> },
+    P2 { t: rg::PairPosFormat2<'a>, cov: rl::CoverageTable<'a>, cd1: rl::ClassDef<'a>, cd2: rl::ClassDef<'a> },
+    MB {
+        t: rg::MarkBasePosFormat1<'a>,
+        mcov: rl::CoverageTable<'a>,
+        bcov: rl::CoverageTable<'a>,
+        marks: rg::MarkArray<'a>,
+        bases: rg::BaseArray<'a>,
+    },
+}
+
+struct CLookup<'a> {
+    raw_type: u16,
+    eff_type: u16,
+    subs: Vec<CSub<'a>>,
+}
+
+fn er<T>(r: Result<T, ReadError>, what: impl FnOnce() -> String) -> Result<T, String> {
+    r.map_err(|e| format!("{}: {e:?}", what()))
+}
+
+fn csub_pair<'a>(p: rg::PairPos<'a>, w: &str) -> Result<CSub<'a>, String> {
+    match p {
+        rg::PairPos::Format1(t) => {
+            let cov = er(t.coverage(), || format!("{w} coverage"))?;
+            Ok(CSub::P1 { t, cov })
+        }
+        rg::PairPos::Format2(t) => {
+            let cov = er(t.coverage(), || format!("{w} coverage"))?;
+            let cd1 = er(t.class_def1(), || format!("{w} class_def1"))?;
+            let cd2 = er(t.class_def2(), || format!("{w} class_def2"))?;
+            Ok(CSub::P2 { t, cov, cd1, cd2 })
+        }
+    }
+}
+
+fn csub_mb<'a>(t: rg::MarkBasePosFormat1<'a>, w: &str) -> Result<CSub<'a>, String> {
+    let mcov = er(t.mark_coverage(), || format!("{w} mark_coverage"))?;
+    let bcov = er(t.base_coverage(), || format!("{w} base_coverage"))?;
+    let marks = er(t.mark_array(), || format!("{w} mark_array"))?;
+    let bases = er(t.base_array(), || format!("{w} base_array"))?;
+    Ok(CSub::MB { t, mcov, bcov, marks, bases })
+}
+
+/// Gpos → lookup list → lookups → ordered subtables (plain and extension-wrapped).
+fn read_compiled(bytes: &[u8]) -> Result<Vec<CLookup<'_>>, String> {
+    let gpos = er(rg::Gpos::read(FontData::new(bytes)), || "Gpos".into())?;
+    let ll = er(gpos.lookup_list(), || "lookup_list".into())?;
+    let mut out = vec![];
+    for (li, l) in ll.lookups().iter().enumerate() {
+        let l = er(l, || format!("lookup {li}"))?;
+        let raw_type = l.lookup_type();
+        let mut eff_type = raw_type;
+        let mut subs = vec![];
+        match l {
+            rg::PositionLookup::Pair(l) => {
+                for (si, st) in l.subtables().iter().enumerate() {
+                    let w = format!("lookup {li} subtable {si}");
+                    subs.push(csub_pair(er(st, || w.clone())?, &w)?);
+                }
+            }
+            rg::PositionLookup::MarkToBase(l) => {
+                for (si, st) in l.subtables().iter().enumerate() {
+                    let w = format!("lookup {li} subtable {si}");
+                    subs.push(csub_mb(er(st, || w.clone())?, &w)?);
+                }
+            }
+            rg::PositionLookup::Extension(l) => {
+                eff_type = 0;
+                for (si, st) in l.subtables().iter().enumerate() {
+                    let w = format!("lookup {li} ext-subtable {si}");
+                    let (ty, sub) = match er(st, || w.clone())? {
+                        rg::ExtensionSubtable::Pair(x) => (2, csub_pair(er(x.extension(), || w.clone())?, &w)?),
+                        rg::ExtensionSubtable::MarkToBase(x) => (4, csub_mb(er(x.extension(), || w.clone())?, &w)?),
+                        _ => return Err(format!("{w}: unexpected extension lookup type")),
+                    };
+                    if eff_type != 0 && eff_type != ty {
+                        return Err(format!("{w}: extension type {ty} differs from {eff_type}"));
+                    }
+                    eff_type = ty;
+                    subs.push(sub);
+                }
+            }
+            _ => return Err(format!("lookup {li}: unexpected lookup type {raw_type}")),
+        }
+        out.push(CLookup { raw_type, eff_type, subs });
+    }
+    Ok(out)
+}
+
+/// Resolve everything reachable from one compiled subtable; check array/coverage consistency.
+fn structure_check(sub: &CSub) -> Result<(), String> {
+    match sub {
+        CSub::P1 { t, cov } => {
+            let n = cov.iter().count();
+            if n != t.pair_set_count() as usize {
+                return Err(format!("PairPos1: coverage has {n} glyphs, pair_set_count {}", t.pair_set_count()));
+            }
+            for (i, ps) in t.pair_sets().iter().enumerate() {
+                let ps = er(ps, || format!("PairPos1 pair set {i}"))?;
+                let k = ps.pair_value_count() as usize;
+                if k > 0 {
+                    er(ps.pair_value_records().get(k - 1), || format!("PairPos1 pair set {i} last record"))?;
+                }
+            }
+            Ok(())
+        }
+        CSub::P2 { t, .. } => {
+            let k1 = t.class1_count() as usize;
+            if k1 > 0 {
+                let r = er(t.class1_records().get(k1 - 1), || "PairPos2 last class1 record".into())?;
+                let k2 = t.class2_count() as usize;
+                if k2 > 0 {
+                    er(r.class2_records().get(k2 - 1), || "PairPos2 last class2 record".into())?;
+                }
+            }
+            Ok(())
+        }
+        CSub::MB { t, mcov, bcov, marks, bases } => {
+            let nm = mcov.iter().count();
+            if nm != marks.mark_count() as usize {
+                return Err(format!("MarkBase: mark coverage {nm} glyphs, mark_count {}", marks.mark_count()));
+            }
+            let nb = bcov.iter().count();
+            if nb != bases.base_count() as usize {
+                return Err(format!("MarkBase: base coverage {nb} glyphs, base_count {}", bases.base_count()));
+            }
+            for (i, m) in marks.mark_records().iter().enumerate() {
+                if m.mark_class() >= t.mark_class_count() {
+                    return Err(format!("MarkBase: mark record {i} class {} >= {}", m.mark_class(), t.mark_class_count()));
+                }
+                er(m.mark_anchor(marks.offset_data()), || format!("MarkBase mark anchor {i}"))?;
+            }
+            for (i, b) in bases.base_records().iter().enumerate() {
+                let b = er(b, || format!("MarkBase base record {i}"))?;
+                for (k, a) in b.base_anchors(bases.offset_data()).iter().enumerate() {
+                    if let Some(a) = a {
+                        er(a, || format!("MarkBase base {i} class {k} anchor"))?;
+                    }
+                }
+            }
+            Ok(())
+        }
+    }
+}
+
+// ---------------------------------------------------------------------------------------
+// reference walkers: compiled side
+// ---------------------------------------------------------------------------------------
+
+/// binary search by second glyph (the consumer's algorithm; records are sorted by contract)
+fn find_pvr_r(recs: &ComputedArray<rg::PairValueRecord>, n: usize, g2: u16) -> Result<Option<rg::PairValueRecord>, String> {
+    let (mut lo, mut hi) = (0usize, n);
+    while lo < hi {
+        let mid = (lo + hi) / 2;
+        let r = er(recs.get(mid), || format!("pair value record {mid}"))?;
+        let g = r.second_glyph().to_u16();
+        if g == g2 {
+            return Ok(Some(r));
+        } else if g < g2 {
+            lo = mid + 1;
+        } else {
+            hi = mid;
+        }
+    }
+    Ok(None)
+}
+
+/// first matching subtable wins; returns (matching subtable index, values)
+fn walk_pair_c(subs: &[CSub], g1: u16, g2: u16) -> Result<Option<(usize, PV)>, String> {
+    for (si, sub) in subs.iter().enumerate() {
+        match sub {
+            CSub::P1 { t, cov } => {
+                let Some(idx) = cov.get(g16(g1)) else { continue };
+                let ps = er(t.pair_sets().get(idx as usize), || format!("subtable {si}: pair set {idx} for glyph {g1}"))?;
+                let recs = ps.pair_value_records();
+                if let Some(r) = find_pvr_r(&recs, ps.pair_value_count() as usize, g2)? {
+                    let d = ps.offset_data();
+                    return Ok(Some((si, (vr_r(r.value_record1(), d), vr_r(r.value_record2(), d)))));
+                }
+            }
+            CSub::P2 { t, cov, cd1, cd2 } => {
+                if cov.get(g16(g1)).is_none() {
+                    continue;
+                }
+                let c1 = cd1.get(g16(g1));
+                let c2 = cd2.get(g16(g2));
+                if c1 >= t.class1_count() || c2 >= t.class2_count() {
+                    continue;
+                }
+                let r1 = er(t.class1_records().get(c1 as usize), || format!("subtable {si}: class1 record {c1}"))?;
+                let r2 = er(r1.class2_records().get(c2 as usize), || format!("subtable {si}: class2 record {c1}/{c2}"))?;
+                let d = t.offset_data();
+                return Ok(Some((si, (vr_r(r2.value_record1(), d), vr_r(r2.value_record2(), d)))));
+            }
+            CSub::MB { .. } => return Err(format!("subtable {si}: MarkBasePos in a pair lookup")),
+        }
+    }
+    Ok(None)
+}
+
+fn walk_mb_c(subs: &[CSub], mark: u16, base: u16) -> Result<Option<(usize, MB)>, String> {
+    for (si, sub) in subs.iter().enumerate() {
+        let CSub::MB { t, mcov, bcov, marks, bases } = sub else {
+            return Err(format!("subtable {si}: PairPos in a mark-to-base lookup"));
+        };
+        let Some(mi) = mcov.get(g16(mark)) else { continue };
+        let Some(bi) = bcov.get(g16(base)) else { continue };
+        let Some(mrec) = marks.mark_records().get(mi as usize) else {
+            return Err(format!("subtable {si}: mark index {mi} beyond mark array"));
+        };
+        let class = mrec.mark_class();
+        if class >= t.mark_class_count() {
+            continue;
+        }
+        let brec = er(bases.base_records().get(bi as usize), || format!("subtable {si}: base record {bi}"))?;
+        match brec.base_anchors(bases.offset_data()).get(class as usize) {
+            None => continue,
+            Some(a) => {
+                let ba = er(a, || format!("subtable {si}: base {bi} class {class} anchor"))?;
+                let ma = er(mrec.mark_anchor(marks.offset_data()), || format!("subtable {si}: mark {mi} anchor"))?;
+                return Ok(Some((si, (anc_r(&ma), anc_r(&ba)))));
+            }
+        }
+    }
+    Ok(None)
+}
+
+// ---------------------------------------------------------------------------------------
+// reference walkers: unsplit write-fonts structs
+// ---------------------------------------------------------------------------------------
+
+enum USub<'a> {
+    P1 { t: &'a wg::PairPosFormat1, cov: BTreeMap<u16, usize> },
+    P2 { t: &'a wg::PairPosFormat2, cov: BTreeMap<u16, usize> },
+    MB { t: &'a wg::MarkBasePosFormat1, mcov: BTreeMap<u16, usize>, bcov: BTreeMap<u16, usize> },
+}
+
+/// glyph → coverage index (position in the coverage's own iteration order; first wins)
+fn cov_index(c: &wl::CoverageTable) -> BTreeMap<u16, usize> {
+    let mut m = BTreeMap::new();
+    for (i, g) in c.iter().enumerate() {
+        m.entry(g.to_u16()).or_insert(i);
+    }
+    m
+}
+
+fn usub_pair(p: &wg::PairPos) -> USub<'_> {
+    match p {
+        wg::PairPos::Format1(t) => USub::P1 { t, cov: cov_index(&t.coverage) },
+        wg::PairPos::Format2(t) => USub::P2 { t, cov: cov_index(&t.coverage) },
+    }
+}
+
+fn walk_pair_u(subs: &[USub], g1: u16, g2: u16) -> Result<Option<(usize, PV)>, String> {
+    for (si, sub) in subs.iter().enumerate() {
+        match sub {
+            USub::P1 { t, cov } => {
+                let Some(&idx) = cov.get(&g1) else { continue };
+                let Some(ps) = t.pair_sets.get(idx) else {
+                    return Err(format!("unsplit subtable {si}: pair set {idx} missing"));
+                };
+                let recs = &ps.pair_value_records;
+                if let Ok(k) = recs.binary_search_by_key(&g2, |r| r.second_glyph.to_u16()) {
+                    return Ok(Some((si, (vr_w(&recs[k].value_record1), vr_w(&recs[k].value_record2)))));
+                }
+            }
+            USub::P2 { t, cov } => {
+                if !cov.contains_key(&g1) {
+                    continue;
+                }
+                let c1 = t.class_def1.get(g16(g1)) as usize;
+                let c2 = t.class_def2.get(g16(g2)) as usize;
+                let n1 = t.class1_records.len();
+                let n2 = t.class1_records.first().map(|r| r.class2_records.len()).unwrap_or(0);
+                if c1 >= n1 || c2 >= n2 {
+                    continue;
+                }
+                let Some(r) = t.class1_records[c1].class2_records.get(c2) else {
+                    return Err(format!("unsplit subtable {si}: ragged class2 records"));
+                };
+                return Ok(Some((si, (vr_w(&r.value_record1), vr_w(&r.value_record2)))));
+            }
+            USub::MB { .. } => return Err("MarkBasePos in a pair lookup".into()),
+        }
+    }
+    Ok(None)
+}
+
+fn walk_mb_u(subs: &[USub], mark: u16, base: u16) -> Result<Option<(usize, MB)>, String> {
+    for (si, sub) in subs.iter().enumerate() {
+        let USub::MB { t, mcov, bcov } = sub else { return Err("PairPos in a mark lookup".into()) };
+        let Some(&mi) = mcov.get(&mark) else { continue };
+        let Some(&bi) = bcov.get(&base) else { continue };
+        let Some(mrec) = t.mark_array.mark_records.get(mi) else {
+            return Err(format!("unsplit subtable {si}: mark record {mi} missing"));
+        };
+        let Some(brec) = t.base_array.base_records.get(bi) else {
+            return Err(format!("unsplit subtable {si}: base record {bi} missing"));
+        };
+        let Some(a) = brec.base_anchors.get(mrec.mark_class as usize).and_then(|a| a.as_ref()) else { continue };
+        return Ok(Some((si, (anc_w(&mrec.mark_anchor), anc_w(a)))));
+    }
+    Ok(None)
+}
+
+// ---------------------------------------------------------------------------------------
+// input rules + the models derived from them
+// ---------------------------------------------------------------------------------------
+
+struct PairSpec {
+    desc: String,
+    builders: Vec<PairPosBuilder>,
+    /// glyph-pair rules; the FIRST insert of a pair wins
+    glyph: BTreeMap<(u16, u16), PV>,
+    c1_sets: Vec<Vec<u16>>,
+    c2_sets: Vec<Vec<u16>>,
+    c1_int: Vec<IntSet<GlyphId16>>,
+    c2_int: Vec<IntSet<GlyphId16>>,
+    /// glyph → class set index, only for sets that appear in at least one rule
+    c1_of: BTreeMap<u16, usize>,
+    c2_of: BTreeMap<u16, usize>,
+    /// class-pair rules; the LAST insert of a cell wins
+    cells: BTreeMap<(usize, usize), PV>,
+    /// semantics are unambiguous from the rules alone → "compiled=input-rules" applies
+    exact: bool,
+}
+
+impl PairSpec {
+    fn new() -> Self {
+        PairSpec {
+            desc: String::new(),
+            builders: vec![PairPosBuilder::default()],
+            glyph: BTreeMap::new(),
+            c1_sets: vec![],
+            c2_sets: vec![],
+            c1_int: vec![],
+            c2_int: vec![],
+            c1_of: BTreeMap::new(),
+            c2_of: BTreeMap::new(),
+            cells: BTreeMap::new(),
+            exact: true,
+        }
+    }
+    fn pair(&mut self, g1: u16, v1: ValueRecordBuilder, g2: u16, v2: ValueRecordBuilder) {
+        self.glyph.entry((g1, g2)).or_insert_with(|| (vr_b(&v1), vr_b(&v2)));
+        self.builders.last_mut().unwrap().insert_pair(g16(g1), v1, g16(g2), v2);
+    }
+    fn add_class1(&mut self, mut gl: Vec<u16>) -> usize {
+        gl.sort();
+        gl.dedup();
+        self.c1_int.push(gl.iter().map(|g| g16(*g)).collect());
+        self.c1_sets.push(gl);
+        self.c1_sets.len() - 1
+    }
+    fn add_class2(&mut self, mut gl: Vec<u16>) -> usize {
+        gl.sort();
+        gl.dedup();
+        self.c2_int.push(gl.iter().map(|g| g16(*g)).collect());
+        self.c2_sets.push(gl);
+        self.c2_sets.len() - 1
+    }
+    fn classes(&mut self, a: usize, v1: ValueRecordBuilder, b: usize, v2: ValueRecordBuilder) {
+        for g in &self.c1_sets[a] {
+            self.c1_of.insert(*g, a);
+        }
+        for g in &self.c2_sets[b] {
+            self.c2_of.insert(*g, b);
+        }
+        self.cells.insert((a, b), (vr_b(&v1), vr_b(&v2)));
+        let (s1, s2) = (self.c1_int[a].clone(), self.c2_int[b].clone());
+        self.builders.last_mut().unwrap().insert_classes(s1, v1, s2, v2);
+    }
+    /// first-match semantics straight from the rules (valid when `exact`)
+    fn expected(&self, g1: u16, g2: u16) -> Option<PV> {
+        if let Some(v) = self.glyph.get(&(g1, g2)) {
+            return Some(v.clone());
+        }
+        let a = self.c1_of.get(&g1)?;
+        Some(self.c2_of.get(&g2).and_then(|b| self.cells.get(&(*a, *b))).cloned().unwrap_or_default())
+    }
+}
+
+struct MarkSpec {
+    desc: String,
+    builder: MarkToBaseBuilder,
+    /// mark glyph → (class, anchor); the last insert wins
+    marks: BTreeMap<u16, (usize, Anc)>,
+    /// base glyph → class → anchor; the last insert of (base, class) wins
+    bases: BTreeMap<u16, BTreeMap<usize, Anc>>,
+    n_classes: usize,
+}
+
+impl MarkSpec {
+    fn new() -> Self {
+        MarkSpec { desc: String::new(), builder: Default::default(), marks: BTreeMap::new(), bases: BTreeMap::new(), n_classes: 0 }
+    }
+    fn mark(&mut self, g: u16, k: usize, a: AnchorBuilder) {
+        self.n_classes = self.n_classes.max(k + 1);
+        self.marks.insert(g, (k, anc_b(&a)));
+        let _ = self.builder.insert_mark(g16(g), &format!("c{k}"), a);
+    }
+    fn base(&mut self, g: u16, k: usize, a: AnchorBuilder) {
+        self.bases.entry(g).or_default().insert(k, anc_b(&a));
+        self.builder.insert_base(g16(g), &format!("c{k}"), a);
+    }
+    fn expected(&self, mark: u16, base: u16) -> Option<MB> {
+        let (k, ma) = self.marks.get(&mark)?;
+        let ba = self.bases.get(&base)?.get(k)?;
+        Some((ma.clone(), ba.clone()))
+    }
+}
+
+enum Spec {
+    Pair(PairSpec),
+    Mark(MarkSpec),
+}
+
+impl Spec {
+    fn desc(&self) -> &str {
+        match self {
+            Spec::Pair(p) => &p.desc,
+            Spec::Mark(m) => &m.desc,
+        }
+    }
+}
+
+// ---------------------------------------------------------------------------------------
+// generator helpers
+// ---------------------------------------------------------------------------------------
+
+/// `n` distinct ascending glyph ids: contiguous or sparse, near 0 / near 0xFFFF / anywhere.
+fn glyph_run(rng: &mut Rng, n: usize) -> (Vec<u16>, &'static str) {
+    let mode = rng.below(6);
+    glyph_run_m(rng, n, mode)
+}
+
+/// mode: 0 contig-low, 1 contig-high, 2 sparse-low, 3 sparse-high, 4 spread, 5 contig-mid
+fn glyph_run_m(rng: &mut Rng, n: usize, mode: u64) -> (Vec<u16>, &'static str) {
+    assert!((1..=60000).contains(&n));
+    let sparse = matches!(mode, 2 | 3 | 4) && n * 5 < 60000;
+    let mut offs: Vec<u32> = Vec::with_capacity(n);
+    let mut cur = 0u32;
+    for i in 0..n {
+        if i > 0 {
+            cur += if !sparse || rng.chance(1, 3) { 1 } else { 2 + rng.below(4) as u32 };
+        }
+        offs.push(cur);
+    }
+    if mode == 4 && sparse {
+        let k = 65000 / (cur + 1);
+        if k >= 2 {
+            for o in offs.iter_mut() {
+                *o *= k;
+            }
+            cur *= k;
+        }
+    }
+    let room = 0xFFFF - cur;
+    let (start, label) = match (mode, sparse) {
+        (0, _) => (rng.below(room.min(40) as u64 + 1) as u32, "contig-low"),
+        (1, _) => (room - rng.below(room.min(3) as u64 + 1) as u32, "contig-high"),
+        (2, true) => (rng.below(room.min(40) as u64 + 1) as u32, "sparse-low"),
+        (3, true) => (room - rng.below(room.min(3) as u64 + 1) as u32, "sparse-high"),
+        (4, true) => (rng.below(room as u64 + 1) as u32, "spread"),
+        _ => (rng.below(room as u64 + 1) as u32, "contig-mid"),
+    };
+    (offs.iter().map(|o| (start + o) as u16).collect(), label)
+}
+
+#[derive(Clone, Copy, Debug, PartialEq, Eq)]
+enum VS {
+    Empty,
+    XAdv,
+    XAdvXPla,
+    All4,
+    XAdvDev,
+    YPla,
+}
+
+fn vs_size(v: VS) -> usize {
+    match v {
+        VS::Empty => 0,
+        VS::XAdv | VS::YPla => 2,
+        VS::XAdvXPla | VS::XAdvDev => 4,
+        VS::All4 => 8,
+    }
+}
+
+fn mk_dev(rng: &mut Rng) -> wl::Device {
+    let start = rng.range(6, 14) as u16;
+    let n = rng.range(1, 6) as usize;
+    let width = rng.below(3);
+    let vals: Vec<i8> = (0..n)
+        .map(|_| match width {
+            0 => rng.range(-2, 1) as i8,
+            1 => rng.range(-8, 7) as i8,
+            _ => rng.range(-128, 127) as i8,
+        })
+        .collect();
+    wl::Device::new(start, start + n as u16 - 1, &vals)
+}
+
+fn mk_vrb(style: VS, v: i16, dev: Option<&wl::Device>) -> ValueRecordBuilder {
+    let b = ValueRecordBuilder::new();
+    match style {
+        VS::Empty => b,
+        VS::XAdv => b.with_x_advance(v),
+        VS::YPla => b.with_y_placement(v),
+        VS::XAdvXPla => b.with_x_advance(v).with_x_placement(v.wrapping_add(1)),
+        VS::All4 => b
+            .with_x_placement(v)
+            .with_y_placement(v.wrapping_add(1))
+            .with_x_advance(v.wrapping_add(2))
+            .with_y_advance(v.wrapping_add(3)),
+        VS::XAdvDev => {
+            let b = b.with_x_advance(v);
+            match dev {
+                Some(d) => b.with_x_advance_device(d.clone()),
+                None => b,
+            }
+        }
+    }
+}
+
+/// a value that differs between any two rows i (for the same j) → pair sets never dedupe
+fn val(i: usize, j: usize, salt: u64) -> i16 {
+    (((i as i64) * 257 + (j as i64) * 31 + (salt % 60001) as i64).rem_euclid(60001) - 30000) as i16
+}
+
+const STYLE_PAIRS: [(VS, VS); 8] = [
+    (VS::XAdv, VS::Empty),
+    (VS::XAdv, VS::Empty),
+    (VS::XAdvXPla, VS::Empty),
+    (VS::All4, VS::Empty),
+    (VS::XAdv, VS::XAdv),
+    (VS::XAdvXPla, VS::XAdv),
+    (VS::YPla, VS::Empty),
+    (VS::All4, VS::XAdvXPla),
+];
+
+// ---------------------------------------------------------------------------------------
+// scenario generators
+// ---------------------------------------------------------------------------------------
+
+/// a. tiny / small PairPos: 1–50 pairs, mixed value formats, devices, duplicates, few classes
+fn gen_tiny_pair(rng: &mut Rng, variant: u64) -> PairSpec {
+    let mut p = PairSpec::new();
+    let npool = rng.range(2, 40) as usize;
+    let mut pool: Vec<u16> =
+        if rng.chance(1, 2) { glyph_run(rng, npool).0 } else { (0..npool).map(|_| rng.next() as u16).collect() };
+    if rng.chance(1, 4) {
+        pool.push(0);
+    }
+    if rng.chance(1, 4) {
+        pool.push(0xFFFF);
+    }
+    let devs: Vec<wl::Device> = (0..3).map(|_| mk_dev(rng)).collect();
+    let all = [VS::Empty, VS::XAdv, VS::XAdvXPla, VS::All4, VS::XAdvDev, VS::YPla];
+    let npal = 1 + rng.below(3) as usize;
+    let palette: Vec<(VS, VS)> = (0..npal)
+        .map(|_| (*rng.pick(&all), if rng.chance(2, 3) { VS::Empty } else { *rng.pick(&all) }))
+        .collect();
+    let n = rng.range(1, 50) as usize;
+    let two_builders = variant == 3;
+    let with_classes = variant % 2 == 1;
+    let one = |p: &mut PairSpec, rng: &mut Rng| {
+        let (g1, g2) = (*rng.pick(&pool), *rng.pick(&pool));
+        let (s1, s2) = *rng.pick(&palette);
+        let v1 = if rng.chance(1, 12) { 0 } else { rng.range(-400, 400) as i16 };
+        let v2 = rng.range(-50, 50) as i16;
+        p.pair(g1, mk_vrb(s1, v1, Some(rng.pick(&devs))), g2, mk_vrb(s2, v2, Some(rng.pick(&devs))));
+        if rng.chance(1, 10) {
+            // a later conflicting rule for the same pair must be ignored
+            let (s1, s2) = *rng.pick(&palette);
+            p.pair(g1, mk_vrb(s1, v1.wrapping_add(7), Some(rng.pick(&devs))), g2, mk_vrb(s2, v2 + 1, None));
+        }
+    };
+    for _ in 0..n {
+        one(&mut p, rng);
+    }
+    let mut ncls = (0, 0);
+    if with_classes {
+        let (mut cpool, _) = glyph_run(rng, 36);
+        if rng.chance(1, 2) {
+            // let class glyphs coincide with glyph-pair glyphs
+            for (i, g) in pool.iter().take(12).enumerate() {
+                if !cpool.contains(g) {
+                    cpool[i] = *g;
+                }
+            }
+            cpool.sort();
+            cpool.dedup();
+        }
+        rng.shuffle(&mut cpool);
+        let k1 = rng.range(1, 4) as usize;
+        let k2 = rng.range(1, 3) as usize;
+        let mut it = cpool.into_iter();
+        for _ in 0..k1 {
+            let sz = rng.range(1, 4) as usize;
+            let gl: Vec<u16> = it.by_ref().take(sz).collect();
+            p.add_class1(gl);
+        }
+        let mut pool2 = glyph_run(rng, 20).0;
+        rng.shuffle(&mut pool2);
+        let mut it = pool2.into_iter();
+        for _ in 0..k2 {
+            let sz = rng.range(1, 4) as usize;
+            let gl: Vec<u16> = it.by_ref().take(sz).collect();
+            p.add_class2(gl);
+        }
+        let (s1, s2) = *rng.pick(&palette);
+        for a in 0..k1 {
+            for b in 0..k2 {
+                if rng.chance(2, 3) {
+                    let reps = if rng.chance(1, 8) { 2 } else { 1 };
+                    for r in 0..reps {
+                        let v = rng.range(-200, 200) as i16 + r;
+                        p.classes(a, mk_vrb(s1, v, Some(rng.pick(&devs))), b, mk_vrb(s2, v / 2, None));
+                    }
+                }
+            }
+        }
+        ncls = (k1, k2);
+    }
+    if two_builders {
+        // a second builder in the same lookup: its subtables come after the first builder's;
+        // semantics then depend on the builder order → only compiled=unsplit applies
+        p.builders.push(PairPosBuilder::default());
+        p.exact = false;
+        for _ in 0..rng.range(1, 10) {
+            one(&mut p, rng);
+        }
+    }
+    p.desc = format!(
+        "tiny-pair{{pairs={} classes={}x{} builders={} palette={:?}}}",
+        p.glyph.len(),
+        ncls.0,
+        ncls.1,
+        p.builders.len(),
+        palette
+    );
+    p
+}
+
+/// b. LARGE PairPos format 1: distinct pair sets, ≈ permille/1000 × 64 KiB
+///   variant 0 uniform, 1 uneven (one ≈30 KiB set), 2 shared sets, 3 two value formats,
+///   4 devices in some rows, 5 one pair set > 64 KiB, 6 runs of identical big pair sets
+fn gen_pp1(rng: &mut Rng, permille: u64, variant: u64) -> PairSpec {
+    let mut p = PairSpec::new();
+    let target = (permille as usize * 65536) / 1000;
+    let (sa1, sa2) = *rng.pick(&STYLE_PAIRS[..6]);
+    let (sb1, sb2) = if sa1 == VS::XAdv && sa2 == VS::Empty { (VS::XAdvXPla, VS::Empty) } else { (VS::XAdv, VS::Empty) };
+    let rs = 2 + vs_size(sa1) + vs_size(sa2);
+    let salt = rng.below(60001);
+    // pair-set sizes
+    let mut sizes: Vec<usize> = vec![];
+    let mut bytes = 0usize;
+    let vname;
+    match variant {
+        1 => {
+            vname = "uneven";
+            let huge = 30000 / rs;
+            let mut acc = 2 + huge * rs + 4;
+            while acc < target.max(2 + huge * rs + 4000) {
+                let n = rng.range(3, 40) as usize;
+                sizes.push(n);
+                acc += 4 + 2 + n * rs;
+            }
+            let at = match rng.below(3) {
+                0 => 0,
+                1 => sizes.len(),
+                _ => rng.below(sizes.len() as u64 + 1) as usize,
+            };
+            sizes.insert(at, huge);
+            bytes = acc;
+        }
+        5 => {
+            vname = "giant";
+            let giant = (66000 + rng.below(3000) as usize) / rs;
+            let nsmall = rng.range(0, 12) as usize;
+            for _ in 0..nsmall {
+                sizes.push(rng.range(2, 30) as usize);
+            }
+            let at = match rng.below(3) {
+                0 => 0,
+                1 => sizes.len(),
+                _ => rng.below(sizes.len() as u64 + 1) as usize,
+            };
+            sizes.insert(at, giant);
+            bytes = sizes.iter().map(|n| 6 + n * rs).sum();
+        }
+        _ => {
+            vname = match variant {
+                0 => "uniform",
+                2 => "shared",
+                3 => "two-formats",
+                6 => "shared-runs",
+                _ => "devices",
+            };
+            let n2 = if variant == 6 { rng.range(1500, 6000) as usize / rs } else { rng.range(20, 400) as usize };
+            while bytes < target {
+                let n = (n2 + rng.below(4) as usize).saturating_sub(rng.below(4) as usize).max(1);
+                sizes.push(n);
+                bytes += 4 + 2 + n * rs;
+            }
+        }
+    }
+    let n1 = sizes.len();
+    let maxn2 = *sizes.iter().max().unwrap();
+    let (g1s, l1) = glyph_run(rng, n1);
+    let extra = rng.below(200) as usize;
+    let (pool2, l2) = glyph_run(rng, (maxn2 + extra).min(60000));
+    let devs: Vec<wl::Device> = (0..24).map(|_| mk_dev(rng)).collect();
+    // row → (value row id, second-glyph window start); shared rows reuse an earlier row's data
+    let mut rowdata: Vec<(usize, usize)> = Vec::with_capacity(n1);
+    for i in 0..n1 {
+        let off = rng.below((pool2.len() - sizes[i]) as u64 + 1) as usize;
+        if (variant == 2 && i > 0 && rng.chance(2, 5)) || (variant == 6 && i > 0 && rng.chance(1, 2)) {
+            let j = if variant == 6 || rng.chance(1, 2) { i - 1 } else { rng.below(i as u64) as usize };
+            sizes[i] = sizes[j];
+            rowdata.push(rowdata[j]);
+            continue;
+        }
+        rowdata.push((i, off));
+    }
+    for i in 0..n1 {
+        let (vi, off) = rowdata[i];
+        let row_style = rng.below(3); // for two-formats: 0 = A, 1 = B, 2 = mixed
+        let dev_row = variant == 4 && rng.chance(3, 10);
+        for j in 0..sizes[i] {
+            let g2 = pool2[off + j];
+            let v = val(vi, j, salt);
+            let (v1, v2) = if variant == 3 && (row_style == 1 || (row_style == 2 && j % 2 == 1)) {
+                (mk_vrb(sb1, v, None), mk_vrb(sb2, v ^ 1, None))
+            } else if dev_row {
+                let d = &devs[(vi * 7 + j) % devs.len()];
+                (mk_vrb(VS::XAdvDev, v, Some(d)), mk_vrb(sa2, v ^ 1, None))
+            } else {
+                (mk_vrb(sa1, v, None), mk_vrb(sa2, v ^ 1, None))
+            };
+            p.pair(g1s[i], v1, g2, v2);
+        }
+    }
+    p.desc = format!(
+        "pp1{{{vname} n1={n1} n2={}..{} rs={rs} styles={:?}/{:?} g1={l1}:{}..{} g2={l2} est={bytes}}}",
+        sizes.iter().min().unwrap(),
+        maxn2,
+        sa1,
+        sa2,
+        g1s[0],
+        g1s[n1 - 1]
+    );
+    p
+}
+
+/// c. LARGE PairPos format 2: K1 × K2 classes, ≈ permille/1000 × 64 KiB of class records
+///   variant 0 plain, 1 devices in some cells, 2 glyph pairs + classes, 3 overlapping class1
+///   sets (several class subtables; only compiled=unsplit applies), 4 many small class1 records
+///   with class1 glyphs scattered over one contiguous glyph range
+fn gen_pp2(rng: &mut Rng, permille: u64, variant: u64) -> PairSpec {
+    let mut p = PairSpec::new();
+    let target = (permille as usize * 65536) / 1000;
+    let (s1, s2) = *rng.pick(&[
+        (VS::XAdv, VS::Empty),
+        (VS::XAdv, VS::Empty),
+        (VS::XAdvXPla, VS::Empty),
+        (VS::XAdv, VS::XAdv),
+        (VS::XAdvXPla, VS::XAdv),
+        (VS::All4, VS::Empty),
+    ]);
+    let with_dev = variant == 1;
+    let rs = vs_size(s1) + vs_size(s2) + if with_dev { 2 } else { 0 };
+    let fine = variant == 4;
+    let mut k2 = if fine { rng.range(6, 24) } else { rng.range(30, 300) } as usize;
+    let mut k1 = target / ((k2 + 1) * rs);
+    if k1 < 12 {
+        k2 = (target / (12 * rs)).clamp(8, 300);
+        k1 = target / ((k2 + 1) * rs);
+    }
+    let k1max = if fine { 5000 } else { 700 };
+    if k1 > k1max {
+        k2 = (target / (k1max * rs)).max(k2);
+        k1 = target / ((k2 + 1) * rs);
+    }
+    let k1 = k1.clamp(2, k1max + 200);
+    let fill = *rng.pick(&[30u64, 60, 100]);
+    let salt = rng.below(60001);
+    let size_of = |rng: &mut Rng| -> usize {
+        if rng.chance(1, 2) {
+            1
+        } else {
+            rng.range(2, 6) as usize
+        }
+    };
+    let sz1: Vec<usize> = (0..k1).map(|_| size_of(rng)).collect();
+    let sz2: Vec<usize> = (0..k2).map(|_| size_of(rng)).collect();
+    let (mut pool1, l1) = if fine {
+        let mode = *rng.pick(&[0u64, 1, 5]);
+        glyph_run_m(rng, sz1.iter().sum(), mode)
+    } else {
+        glyph_run(rng, sz1.iter().sum())
+    };
+    let (mut pool2, l2) = glyph_run(rng, sz2.iter().sum());
+    let scattered1 = fine || rng.chance(1, 2);
+    let scattered2 = rng.chance(1, 2);
+    if scattered1 {
+        rng.shuffle(&mut pool1);
+    }
+    if scattered2 {
+        rng.shuffle(&mut pool2);
+    }
+    let mut it = pool1.iter().copied();
+    for n in &sz1 {
+        let gl: Vec<u16> = it.by_ref().take(*n).collect();
+        p.add_class1(gl);
+    }
+    let mut it = pool2.iter().copied();
+    for n in &sz2 {
+        let gl: Vec<u16> = it.by_ref().take(*n).collect();
+        p.add_class2(gl);
+    }
+    let devs: Vec<wl::Device> = (0..16).map(|_| mk_dev(rng)).collect();
+    // glyph pairs first (they end up in format-1 subtables ahead of the class subtables)
+    let mut npairs = 0;
+    if variant == 2 {
+        npairs = rng.range(200, 3000) as usize;
+        let (ps1, ps2) = *rng.pick(&STYLE_PAIRS[..6]);
+        for k in 0..npairs {
+            let g1 = if rng.chance(1, 2) { *rng.pick(&pool1) } else { rng.next() as u16 };
+            let g2 = if rng.chance(2, 3) { *rng.pick(&pool2) } else { rng.next() as u16 };
+            let v = val(k, 3, salt);
+            p.pair(g1, mk_vrb(ps1, v, None), g2, mk_vrb(ps2, v ^ 3, None));
+        }
+    }
+    // overlapping class1 sets, spliced into the insertion order
+    let mut order: Vec<usize> = (0..k1).collect();
+    rng.shuffle(&mut order);
+    let mut n_overlap = 0;
+    if variant == 3 {
+        n_overlap = rng.range(1, 4) as usize;
+        p.exact = false;
+        for _ in 0..n_overlap {
+            let victim = rng.below(k1 as u64) as usize;
+            let mut gl = vec![*rng.pick(&p.c1_sets[victim])];
+            gl.push(rng.next() as u16);
+            let id = p.add_class1(gl);
+            let at = rng.below(order.len() as u64 + 1) as usize;
+            order.insert(at, id);
+        }
+    }
+    let mut ncells = 0usize;
+    for a in order {
+        let mut any = false;
+        for b in 0..k2 {
+            if fill < 100 && !rng.chance(fill, 100) && !(b == k2 - 1 && !any) {
+                continue;
+            }
+            any = true;
+            ncells += 1;
+            let v = val(a, b, salt);
+            let r1 = if with_dev && rng.chance(1, 50) {
+                // x_advance + device on top of the regular fields
+                let d = &devs[(a + b) % devs.len()];
+                mk_vrb(s1, v, None).with_x_advance(v).with_x_advance_device(d.clone())
+            } else {
+                mk_vrb(s1, v, None)
+            };
+            p.classes(a, r1, b, mk_vrb(s2, v ^ 5, None));
+        }
+    }
+    p.desc = format!(
+        "pp2{{v{variant} k1={k1}+{n_overlap} k2={k2} rs={rs} styles={:?}/{:?} fill={fill}% cells={ncells} pairs={npairs} \
+         c1={l1}{} c2={l2}{} est={}}}",
+        s1,
+        s2,
+        if scattered1 { "/scattered" } else { "/runs" },
+        if scattered2 { "/scattered" } else { "/runs" },
+        k1 * (k2 + 1) * rs
+    );
+    p
+}
+
+/// d. MarkToBase: M marks in C classes, B bases, distinct anchors ≈ permille/1000 × 64 KiB
+///   variant 0 plain, 1 with null anchors, 2 with contour points / devices / re-inserts,
+///   3 shared anchors, 4 dense and nearly empty classes side by side
+fn gen_mb(rng: &mut Rng, permille: u64, variant: u64) -> MarkSpec {
+    let mut m = MarkSpec::new();
+    let target = (permille as usize * 65536) / 1000;
+    let tiny = permille == 0;
+    let c = if tiny { rng.range(1, 4) } else { rng.range(2, 40) } as usize;
+    let fill: u64 = if variant == 1 {
+        *rng.pick(&[50u64, 80, 95])
+    } else if variant == 4 {
+        45
+    } else {
+        100
+    };
+    // variant 4: per-class fill
+    let class_fill: Vec<u64> = (0..c).map(|_| if variant == 4 { *rng.pick(&[3u64, 30, 100]) } else { fill }).collect();
+    let b = if tiny {
+        rng.range(1, 20) as usize
+    } else {
+        ((target * 100) / (8 * c * fill as usize)).clamp(20, 3000)
+    };
+    let nm = if tiny { rng.range(c as i64, c as i64 + 6) } else { rng.range(c as i64, c as i64 + 150) } as usize;
+    let (mut mgl, lm) = glyph_run(rng, nm);
+    let (bgl, lb) = glyph_run(rng, b);
+    rng.shuffle(&mut mgl);
+    let devs: Vec<wl::Device> = (0..8).map(|_| mk_dev(rng)).collect();
+    // marks: one per class first (fixes the class ids), the rest skewed towards class 0
+    for (i, g) in mgl.iter().enumerate() {
+        let k = if i < c {
+            i
+        } else if rng.chance(1, 2) {
+            0
+        } else {
+            rng.below(c as u64) as usize
+        };
+        let mut a = AnchorBuilder::new(20000 + i as i16, k as i16);
+        if variant == 2 && rng.chance(1, 20) {
+            a = a.with_contourpoint(rng.below(500) as u16);
+        }
+        if variant == 2 && rng.chance(1, 25) {
+            a = a.with_y_device(rng.pick(&devs).clone());
+        }
+        m.mark(*g, k, a);
+        if variant == 2 && rng.chance(1, 30) {
+            // same mark, same class, new anchor: the last one wins
+            m.mark(*g, k, AnchorBuilder::new(-20000 - i as i16, k as i16));
+        }
+    }
+    let mut n_anchor = 0usize;
+    for (bi, g) in bgl.iter().enumerate() {
+        let forced = rng.below(c as u64) as usize;
+        for k in 0..c {
+            if class_fill[k] < 100 && k != forced && !rng.chance(class_fill[k], 100) {
+                continue;
+            }
+            n_anchor += 1;
+            let (x, y) = if variant == 3 && rng.chance(1, 3) {
+                ((bi % 17) as i16, (k % 3) as i16) // few distinct → shared anchor tables
+            } else {
+                (bi as i16 - 1500, (k as i16) * 40 + (bi % 7) as i16 + 100)
+            };
+            let mut a = AnchorBuilder::new(x, y);
+            if variant == 2 {
+                if rng.chance(1, 40) {
+                    a = a.with_contourpoint(rng.below(300) as u16);
+                }
+                if rng.chance(1, 40) {
+                    a = a.with_x_device(rng.pick(&devs).clone());
+                }
+                if rng.chance(1, 60) {
+                    a = a.with_y_device(rng.pick(&devs).clone());
+                }
+            }
+            m.base(*g, k, a);
+            if variant == 2 && rng.chance(1, 50) {
+                m.base(*g, k, AnchorBuilder::new(x.wrapping_add(9000), y));
+            }
+        }
+    }
+    m.desc = format!(
+        "mb{{v{variant} classes={c} marks={nm}:{lm} bases={b}:{lb} fill={fill}% anchors={n_anchor} est={}}}",
+        12 + 2 * nm + 2 * b + 10 * nm + 2 + 2 * b * c + 6 * n_anchor
+    );
+    m
+}
+
+/// Deterministic scenarios (no random choice): the smallest inputs found for known defects.
+/// `n` scales the scenario (0 = the default, minimal failing size).
+///   variant 0: MarkToBase, 10 classes: 5 with an anchor on every base, 5 without any base anchor
+///   variant 1: PairPos format 2, class1 glyphs consecutive, 2-glyph classes interleaved with
+///              1-glyph classes (class ids are ordered by size, so no class-id range is contiguous);
+///              n = number of class2 sets
+fn gen_fixed(n: u64, variant: u64) -> Vec<Spec> {
+    match variant {
+        0 => {
+            let b = if n == 0 { 1400 } else { n as usize };
+            let (c, dense) = (10usize, 5usize);
+            let mut m = MarkSpec::new();
+            for k in 0..c {
+                m.mark(10 + k as u16, k, AnchorBuilder::new(k as i16, 1));
+            }
+            for bi in 0..b {
+                for k in 0..dense {
+                    m.base(100 + bi as u16, k, AnchorBuilder::new(bi as i16, 10 + k as i16));
+                }
+            }
+            m.desc = format!(
+                "fixed-mb{{marks 10..={} one per class c0..c{}; bases 100..={}: anchor (i,10+k) for classes k<{dense} only}}",
+                9 + c,
+                c - 1,
+                99 + b
+            );
+            vec![Spec::Mark(m)]
+        }
+        _ => {
+            let k2 = if n == 0 { 60 } else { n as usize };
+            let k1 = 300usize;
+            let mut p = PairSpec::new();
+            // class1 glyphs 100..=549 are consecutive: [single][pair pair][single][pair pair]…
+            // (class ids: the 150 pairs first, then the 150 singles — both scattered)
+            for i in 0..k1 / 2 {
+                let g = 100 + i as u16 * 3;
+                p.add_class1(vec![g + 1, g + 2]);
+            }
+            for i in 0..k1 / 2 {
+                p.add_class1(vec![100 + i as u16 * 3]);
+            }
+            for j in 0..k2 {
+                p.add_class2(vec![40000 + 4 * j as u16]);
+            }
+            for a in 0..k1 {
+                for b in 0..k2 {
+                    p.classes(a, mk_vrb(VS::All4, val(a, b, 0), None), b, mk_vrb(VS::Empty, 0, None));
+                }
+            }
+            p.desc = format!(
+                "fixed-pp2{{class1: 150 sets [101+3i,102+3i] then 150 sets [100+3i] (glyphs 100..=549 consecutive); \
+                 class2: {k2} sets [40000+4j]; every cell (a,b): all four values from val(a,b)}}"
+            );
+            vec![Spec::Pair(p)]
+        }
+    }
+}
+
+/// e. several medium lookups in one Gpos (extension promotion is decided per lookup)
+fn gen_multi(rng: &mut Rng, permille: u64, variant: u64) -> Vec<Spec> {
+    let n = 2 + (variant % 2) as usize;
+    let mut specs: Vec<Spec> = vec![];
+    // always one PairPos and one MarkToBase, the rest random
+    let mut kinds: Vec<u64> = vec![rng.below(2), 2];
+    while kinds.len() < n {
+        kinds.push(rng.below(4));
+    }
+    rng.shuffle(&mut kinds);
+    for k in kinds {
+        // sizes around permille, individually jittered 50 % … 130 %
+        let f = permille * (50 + rng.below(81)) / 100;
+        let v = rng.below(60);
+        specs.push(match k {
+            0 => Spec::Pair(gen_pp1(rng, f, v % 5)),
+            1 => Spec::Pair(gen_pp2(rng, f, v % 3)),
+            2 => Spec::Mark(gen_mb(rng, f.max(100), v % 4)),
+            _ => Spec::Pair(gen_tiny_pair(rng, v % 3)),
+        });
+    }
+    specs
+}
+
+// ---------------------------------------------------------------------------------------
+// probes
+// ---------------------------------------------------------------------------------------
+
+fn around(g: u16) -> [u16; 3] {
+    [g.wrapping_sub(1), g, g.wrapping_add(1)]
+}
+
+fn cov_ends(c: &rl::CoverageTable) -> Vec<u16> {
+    let mut it = c.iter();
+    match it.next() {
+        None => vec![],
+        Some(f) => {
+            let l = it.last().unwrap_or(f);
+            vec![f.to_u16(), l.to_u16()]
+        }
+    }
+}
+
+/// second glyphs worth trying together with first glyph `g1`
+fn g2s_for(p: &PairSpec, rng: &mut Rng, g1: u16) -> Vec<u16> {
+    let mut v = vec![];
+    let r: Vec<u16> = p.glyph.range((g1, 0)..=(g1, 0xFFFF)).map(|(k, _)| k.1).collect();
+    if !r.is_empty() {
+        let (f, l) = (r[0], r[r.len() - 1]);
+        v.extend([f, l, *rng.pick(&r), f.wrapping_sub(1), l.wrapping_add(1)]);
+    }
+    if !p.c2_sets.is_empty() {
+        for _ in 0..3 {
+            let b = rng.pick(&p.c2_sets);
+            v.push(*rng.pick(b));
+        }
+    }
+    v.extend([rng.next() as u16, 0, 0xFFFF]);
+    v
+}
+
+fn pair_probes(rng: &mut Rng, p: &PairSpec, c: &CLookup) -> Vec<(u16, u16)> {
+    let mut set: BTreeSet<(u16, u16)> = BTreeSet::new();
+    // rule pairs: all, or a sample
+    let keys: Vec<(u16, u16)> = p.glyph.keys().copied().collect();
+    if keys.len() <= 3000 {
+        set.extend(keys.iter().copied());
+    } else {
+        for _ in 0..2000 {
+            set.insert(*rng.pick(&keys));
+        }
+    }
+    let cells: Vec<(usize, usize)> = p.cells.keys().copied().collect();
+    if cells.len() <= 3000 {
+        for (a, b) in &cells {
+            set.insert((*rng.pick(&p.c1_sets[*a]), *rng.pick(&p.c2_sets[*b])));
+        }
+    } else {
+        for _ in 0..2000 {
+            let (a, b) = *rng.pick(&cells);
+            set.insert((*rng.pick(&p.c1_sets[a]), *rng.pick(&p.c2_sets[b])));
+        }
+    }
+    // first and last pair set
+    if let (Some(f), Some(l)) = (keys.first(), keys.last()) {
+        for g1 in [f.0, l.0] {
+            for (k, _) in p.glyph.range((g1, 0)..=(g1, 0xFFFF)).take(60) {
+                set.insert(*k);
+            }
+            for (k, _) in p.glyph.range((g1, 0)..=(g1, 0xFFFF)).rev().take(20) {
+                set.insert(*k);
+            }
+        }
+    }
+    // first and last class (all members) against first / last / random class2
+    if !p.c1_sets.is_empty() && !p.c2_sets.is_empty() {
+        let (n1, n2) = (p.c1_sets.len(), p.c2_sets.len());
+        for a in [0, n1 - 1] {
+            for b in [0, n2 - 1, rng.below(n2 as u64) as usize] {
+                for g1 in &p.c1_sets[a] {
+                    for g2 in &p.c2_sets[b] {
+                        set.insert((*g1, *g2));
+                    }
+                }
+            }
+        }
+    }
+    // neighbours of every compiled subtable boundary
+    for sub in &c.subs {
+        let ends = match sub {
+            CSub::P1 { cov, .. } | CSub::P2 { cov, .. } => cov_ends(cov),
+            _ => vec![],
+        };
+        for e in ends {
+            for g1 in around(e) {
+                for g2 in g2s_for(p, rng, g1) {
+                    set.insert((g1, g2));
+                }
+            }
+        }
+    }
+    // non-rule pairs
+    let firsts: Vec<u16> = {
+        let mut f: BTreeSet<u16> = keys.iter().map(|k| k.0).collect();
+        f.extend(p.c1_of.keys().copied());
+        f.into_iter().collect()
+    };
+    for i in 0..300 {
+        let g1 = match i % 4 {
+            0 | 1 if !firsts.is_empty() => *rng.pick(&firsts),
+            2 => *rng.pick(&[0u16, 0xFFFF, 1, 0xFFFE]),
+            _ => rng.next() as u16,
+        };
+        let g2 = match (i / 4) % 4 {
+            0 => *rng.pick(&[0u16, 0xFFFF]),
+            1 if !keys.is_empty() => rng.pick(&keys).1,
+            _ => rng.next() as u16,
+        };
+        set.insert((g1, g2));
+    }
+    set.into_iter().collect()
+}
+
+fn mark_probes(rng: &mut Rng, m: &MarkSpec, c: &CLookup) -> Vec<(u16, u16)> {
+    let mut set: BTreeSet<(u16, u16)> = BTreeSet::new();
+    let marks: Vec<u16> = m.marks.keys().copied().collect();
+    let bases: Vec<u16> = m.bases.keys().copied().collect();
+    let mut by_class: Vec<Vec<u16>> = vec![vec![]; m.n_classes];
+    for (g, (k, _)) in &m.marks {
+        by_class[*k].push(*g);
+    }
+    // rules: every (base, class) anchor with a random mark of that class — all or a sample
+    let n_rules: usize = m.bases.values().map(|v| v.len()).sum();
+    let mut null_cells: Vec<(u16, usize)> = vec![];
+    for (b, anchors) in &m.bases {
+        for k in 0..m.n_classes {
+            if by_class[k].is_empty() {
+                continue;
+            }
+            if anchors.contains_key(&k) {
+                if n_rules <= 3000 || rng.below(n_rules as u64) < 2000 {
+                    set.insert((*rng.pick(&by_class[k]), *b));
+                }
+            } else {
+                null_cells.push((*b, k));
+            }
+        }
+    }
+    // bases without an anchor for the mark's class
+    for _ in 0..300.min(null_cells.len() * 2) {
+        let (b, k) = *rng.pick(&null_cells);
+        set.insert((*rng.pick(&by_class[k]), b));
+    }
+    // first / last mark of every class, first / last base
+    if !bases.is_empty() {
+        let bsel = [bases[0], bases[bases.len() - 1], *rng.pick(&bases)];
+        for ms in &by_class {
+            if let (Some(f), Some(l)) = (ms.first(), ms.last()) {
+                for b in bsel {
+                    set.insert((*f, b));
+                    set.insert((*l, b));
+                }
+            }
+        }
+        if !marks.is_empty() {
+            for mk in [marks[0], marks[marks.len() - 1]] {
+                for _ in 0..20 {
+                    set.insert((mk, *rng.pick(&bases)));
+                }
+            }
+        }
+    }
+    // boundaries of every compiled subtable
+    for sub in &c.subs {
+        if let CSub::MB { mcov, bcov, .. } = sub {
+            for e in cov_ends(mcov) {
+                for mk in around(e) {
+                    for b in cov_ends(bcov) {
+                        for bb in around(b) {
+                            set.insert((mk, bb));
+                        }
+                    }
+                    if !bases.is_empty() {
+                        for _ in 0..4 {
+                            set.insert((mk, *rng.pick(&bases)));
+                        }
+                    }
+                }
+            }
+        }
+    }
+    // absent glyphs
+    for i in 0..200 {
+        let mk = match i % 4 {
+            0 | 1 if !marks.is_empty() => *rng.pick(&marks),
+            2 => *rng.pick(&[0u16, 0xFFFF]),
+            _ => rng.next() as u16,
+        };
+        let b = match (i / 4) % 3 {
+            0 if !bases.is_empty() => *rng.pick(&bases),
+            1 => *rng.pick(&[0u16, 0xFFFF]),
+            _ => rng.next() as u16,
+        };
+        set.insert((mk, b));
+    }
+    set.into_iter().collect()
+}
+
+// ---------------------------------------------------------------------------------------
+// one scenario: build → compile → read back → walk → oracles
+// ---------------------------------------------------------------------------------------
+
+const MAX_REPORTS: usize = 3;
+
+struct Reporter {
+    reported: BTreeMap<&'static str, usize>,
+}
+
+impl Reporter {
+    /// per scenario and oracle: every success and the first few failures are recorded
+    fn check(&mut self, s: &mut Session, name: &'static str, ok: bool, input: impl FnOnce() -> String, detail: impl FnOnce() -> String) {
+        s.count(&format!("e2e:checks:{name}"));
+        if ok {
+            s.oracle(name, true, String::new, String::new);
+            return;
+        }
+        let n = self.reported.entry(name).or_insert(0);
+        *n += 1;
+        if *n <= MAX_REPORTS {
+            s.oracle(name, false, input, detail);
+        } else {
+            s.count(&format!("e2e:further-failures-same-scenario:{name}"));
+        }
+    }
+}
+
+fn strip<T>(r: &Result<Option<(usize, T)>, String>) -> Result<Option<&T>, &String> {
+    match r {
+        Ok(o) => Ok(o.as_ref().map(|x| &x.1)),
+        Err(e) => Err(e),
+    }
+}
+
+fn where_<T>(r: &Result<Option<(usize, T)>, String>) -> String {
+    match r {
+        Ok(Some((i, _))) => format!("@subtable {i}"),
+        Ok(None) => String::new(),
+        Err(e) => format!("ERROR {e}"),
+    }
+}
+
+fn check_pair(s: &mut Session, rng: &mut Rng, rep: &mut Reporter, tag: &str, li: usize, p: &PairSpec, l: &wl::Lookup<wg::PairPos>, c: &CLookup) {
+    let usubs: Vec<USub> = l.subtables.iter().map(|st| usub_pair(st)).collect();
+    let u1 = usubs.iter().filter(|u| matches!(u, USub::P1 { .. })).count();
+    let u2 = usubs.len() - u1;
+    let c1 = c.subs.iter().filter(|u| matches!(u, CSub::P1 { .. })).count();
+    let c2 = c.subs.iter().filter(|u| matches!(u, CSub::P2 { .. })).count();
+    for u in &usubs {
+        match u {
+            USub::P1 { t, .. } => s.count(&format!("e2e:unsplit-pairpos1-coverage-format:{}", cov_fmt(&t.coverage))),
+            USub::P2 { t, .. } => s.count(&format!("e2e:unsplit-pairpos2-coverage-format:{}", cov_fmt(&t.coverage))),
+            _ => {}
+        }
+    }
+    if c.subs.len() > usubs.len() {
+        s.count("split-triggered");
+        if c1 > u1 {
+            s.count("split-triggered:pairpos1");
+        }
+        if c2 > u2 {
+            s.count("split-triggered:pairpos2");
+        }
+    } else {
+        s.count("no-split");
+    }
+    let input = |g1: u16, g2: u16| format!("{tag} lookup {li} {} pair=({g1},{g2})", p.desc);
+    rep.check(
+        s,
+        "e2e:subtable-sizes-fit",
+        c.eff_type == 2 && c1 >= u1 && c2 >= u2,
+        || format!("{tag} lookup {li} {}", p.desc),
+        || format!("type {} (raw {}), compiled subtables f1={c1} f2={c2}, unsplit f1={u1} f2={u2}", c.eff_type, c.raw_type),
+    );
+    let probes = pair_probes(rng, p, c);
+    s.count(&format!("e2e:pair-probes:{}", bucket(probes.len())));
+    for (g1, g2) in probes {
+        let rc = walk_pair_c(&c.subs, g1, g2);
+        let ru = walk_pair_u(&usubs, g1, g2);
+        let ok = match (strip(&rc), strip(&ru)) {
+            (Ok(a), Ok(b)) => a == b,
+            _ => false,
+        };
+        match &rc {
+            Ok(Some(_)) => s.count("e2e:pair-probe:match"),
+            Ok(None) => s.count("e2e:pair-probe:nothing"),
+            Err(_) => s.count("e2e:pair-probe:error"),
+        }
+        rep.check(
+            s,
+            "e2e-pairpos:compiled=unsplit",
+            ok,
+            || input(g1, g2),
+            || {
+                format!(
+                    "compiled {} {} ; unsplit {} {}",
+                    strip(&rc).map(|o| show_pv(&o.cloned())).unwrap_or_default(),
+                    where_(&rc),
+                    strip(&ru).map(|o| show_pv(&o.cloned())).unwrap_or_default(),
+                    where_(&ru)
+                )
+            },
+        );
+        if p.exact {
+            let exp = p.expected(g1, g2);
+            let got = strip(&rc).map(|o| o.cloned());
+            let ok = matches!(&got, Ok(g) if pv_effective_eq(g, &exp));
+            rep.check(
+                s,
+                "e2e-pairpos:compiled=input-rules",
+                ok,
+                || input(g1, g2),
+                || {
+                    format!(
+                        "compiled {} {} ; input rules say {} (glyph rule: {}, class1: {:?}, class2: {:?})",
+                        got.as_ref().map(show_pv).unwrap_or_default(),
+                        where_(&rc),
+                        show_pv(&exp),
+                        p.glyph.contains_key(&(g1, g2)),
+                        p.c1_of.get(&g1),
+                        p.c2_of.get(&g2)
+                    )
+                },
+            );
+        }
+    }
+}
+
+fn check_mark(s: &mut Session, rng: &mut Rng, rep: &mut Reporter, tag: &str, li: usize, m: &MarkSpec, l: &wl::Lookup<wg::MarkBasePosFormat1>, c: &CLookup) {
+    let usubs: Vec<USub> = l
+        .subtables
+        .iter()
+        .map(|t| USub::MB { t, mcov: cov_index(&t.mark_coverage), bcov: cov_index(&t.base_coverage) })
+        .collect();
+    if c.subs.len() > usubs.len() {
+        s.count("split-triggered");
+        s.count("split-triggered:markbase");
+    } else {
+        s.count("no-split");
+    }
+    let input = |mk: u16, b: u16| format!("{tag} lookup {li} {} (mark,base)=({mk},{b})", m.desc);
+    rep.check(
+        s,
+        "e2e:subtable-sizes-fit",
+        c.eff_type == 4 && c.subs.len() >= usubs.len(),
+        || format!("{tag} lookup {li} {}", m.desc),
+        || format!("type {} (raw {}), compiled subtables {}, unsplit {}", c.eff_type, c.raw_type, c.subs.len(), usubs.len()),
+    );
+    let probes = mark_probes(rng, m, c);
+    s.count(&format!("e2e:mark-probes:{}", bucket(probes.len())));
+    for (mk, b) in probes {
+        let rc = walk_mb_c(&c.subs, mk, b);
+        let ru = walk_mb_u(&usubs, mk, b);
+        let exp = m.expected(mk, b);
+        match &rc {
+            Ok(Some(_)) => s.count("e2e:mark-probe:match"),
+            Ok(None) => s.count("e2e:mark-probe:nothing"),
+            Err(_) => s.count("e2e:mark-probe:error"),
+        }
+        let ok_u = match (strip(&rc), strip(&ru)) {
+            (Ok(a), Ok(b)) => a == b,
+            _ => false,
+        };
+        let ok_e = matches!(strip(&rc), Ok(g) if g == exp.as_ref());
+        let detail = |other: String| {
+            format!(
+                "compiled {} {} ; {other} (mark class {:?}, base has classes {:?})",
+                strip(&rc).map(|o| show_mb(&o.cloned())).unwrap_or_default(),
+                where_(&rc),
+                m.marks.get(&mk).map(|x| x.0),
+                m.bases.get(&b).map(|x| x.keys().copied().collect::<Vec<_>>())
+            )
+        };
+        rep.check(s, "e2e-markbase:compiled=unsplit", ok_u, || input(mk, b), || {
+            detail(format!("unsplit {} {}", strip(&ru).map(|o| show_mb(&o.cloned())).unwrap_or_default(), where_(&ru)))
+        });
+        rep.check(s, "e2e-markbase:compiled=input-rules", ok_e, || input(mk, b), || {
+            detail(format!("input rules say {}", show_mb(&exp)))
+        });
+    }
+}
+
+fn cov_fmt(c: &wl::CoverageTable) -> u8 {
+    match c {
+        wl::CoverageTable::Format1(_) => 1,
+        wl::CoverageTable::Format2(_) => 2,
+    }
+}
+
+fn bucket(n: usize) -> &'static str {
+    match n {
+        0..=99 => "<100",
+        100..=999 => "100-999",
+        1000..=2999 => "1000-2999",
+        _ => ">=3000",
+    }
+}
+
+fn clip(s: String) -> String {
+    if s.len() > 400 {
+        let mut e = 400;
+        while !s.is_char_boundary(e) {
+            e -= 1;
+        }
+        format!("{}…", &s[..e])
+    } else {
+        s
+    }
+}
+
+fn run_scenario(s: &mut Session, rng: &mut Rng, kind: &str, tag: &str, mut specs: Vec<Spec>) {
+    let t0 = std::time::Instant::now();
+    s.count(&format!("e2e:scenario:{kind}"));
+    s.count(&format!("e2e:lookups-per-gpos:{}", specs.len()));
+    let descs: Vec<String> = specs.iter().map(|x| x.desc().to_string()).collect();
+    let input = || format!("{tag} lookups=[{}]", descs.join(" | "));
+    let mut rep = Reporter { reported: BTreeMap::new() };
+    // 1. the real builders → unsplit subtables → Gpos
+    let built = catch(|| {
+        let mut vs = VariationStoreBuilder::new(0);
+        let mut lookups: Vec<wg::PositionLookup> = vec![];
+        for sp in specs.iter_mut() {
+            match sp {
+                Spec::Pair(p) => {
+                    let lb = LookupBuilder::new_with_lookups(wl::LookupFlag::empty(), None, std::mem::take(&mut p.builders));
+                    lookups.push(wg::PositionLookup::Pair(lb.build(&mut vs)));
+                }
+                Spec::Mark(m) => {
+                    let lb = LookupBuilder::new_with_lookups(wl::LookupFlag::empty(), None, vec![std::mem::take(&mut m.builder)]);
+                    lookups.push(wg::PositionLookup::MarkToBase(lb.build(&mut vs)));
+                }
+            }
+        }
+        wg::Gpos::new(Default::default(), Default::default(), wg::PositionLookupList::new(lookups))
+    });
+    let gpos = match built {
+        Ok(g) => g,
+        Err(e) => {
+            rep.check(s, "gpos-compiles", false, input, || clip(format!("builder panicked: {e}")));
+            return;
+        }
+    };
+    let t1 = t0.elapsed();
+    // 2. compile (graph packing, splitting, extension promotion)
+    let bytes = match catch(|| write_fonts::dump_table(&gpos)) {
+        Ok(Ok(b)) => {
+            rep.check(s, "gpos-compiles", true, String::new, String::new);
+            b
+        }
+        Ok(Err(e)) => {
+            s.count(&format!("e2e:compile-failed:{kind}"));
+            rep.check(s, "gpos-compiles", false, input, || clip(format!("dump_table error: {e}")));
+            return;
+        }
+        Err(e) => {
+            s.count(&format!("e2e:compile-failed:{kind}"));
+            rep.check(s, "gpos-compiles", false, input, || clip(format!("dump_table panicked: {e}")));
+            return;
+        }
+    };
+    let t2 = t0.elapsed();
+    s.count(match bytes.len() {
+        0..=65535 => "e2e:bytes<=64K",
+        65536..=131071 => "e2e:bytes>64K",
+        131072..=196607 => "e2e:bytes>128K",
+        _ => "e2e:bytes>192K",
+    });
+    // 3. read back
+    let comp = match read_compiled(&bytes) {
+        Ok(c) => c,
+        Err(e) => {
+            rep.check(s, "e2e:subtable-sizes-fit", false, input, || e);
+            return;
+        }
+    };
+    let wlookups = &gpos.lookup_list.lookups;
+    rep.check(s, "e2e:subtable-sizes-fit", comp.len() == wlookups.len(), input, || {
+        format!("{} lookups read back, {} written", comp.len(), wlookups.len())
+    });
+    if comp.len() != wlookups.len() {
+        return;
+    }
+    for (li, c) in comp.iter().enumerate() {
+        if c.raw_type == 9 {
+            s.count("extension-promoted");
+        } else {
+            s.count("not-promoted");
+        }
+        for (si, sub) in c.subs.iter().enumerate() {
+            let r = structure_check(sub);
+            rep.check(s, "e2e:subtable-sizes-fit", r.is_ok(), input, || {
+                format!("lookup {li} subtable {si}: {}", r.clone().err().unwrap_or_default())
+            });
+        }
+    }
+    // 4./5. walk and compare
+    for (li, sp) in specs.iter().enumerate() {
+        match (sp, &*wlookups[li]) {
+            (Spec::Pair(p), wg::PositionLookup::Pair(l)) => check_pair(s, rng, &mut rep, tag, li, p, l, &comp[li]),
+            (Spec::Mark(m), wg::PositionLookup::MarkToBase(l)) => check_mark(s, rng, &mut rep, tag, li, m, l, &comp[li]),
+            _ => unreachable!(),
+        }
+    }
+    if std::env::var("C16_E2E_VERBOSE").is_ok() {
+        let subs: Vec<String> = comp.iter().map(|c| format!("t{}x{}", c.raw_type, c.subs.len())).collect();
+        eprintln!(
+            "{tag} bytes={} lookups=[{}] build={:.2}s compile={:.2}s check={:.2}s  {}",
+            bytes.len(),
+            subs.join(" "),
+            t1.as_secs_f64(),
+            (t2 - t1).as_secs_f64(),
+            (t0.elapsed() - t2).as_secs_f64(),
+            descs.join(" | ")
+        );
+    }
+}
+
+/// every scenario is a function of (kind, permille, variant, rng state)
+fn one(s: &mut Session, rng: &mut Rng, kind: &str, permille: u64, variant: u64) {
+    let tag = format!("e2e[{kind}:{permille}:{variant}:{:#x}]", rng.0);
+    let specs = match kind {
+        "tiny-pair" => vec![Spec::Pair(gen_tiny_pair(rng, variant))],
+        "tiny-markbase" => vec![Spec::Mark(gen_mb(rng, 0, variant))],
+        "pairpos1" => vec![Spec::Pair(gen_pp1(rng, permille, variant))],
+        "pairpos2" => vec![Spec::Pair(gen_pp2(rng, permille, variant))],
+        "markbase" => vec![Spec::Mark(gen_mb(rng, permille, variant))],
+        "multi" => gen_multi(rng, permille, variant),
+        "fixed" => gen_fixed(permille, variant),
+        _ => return,
+    };
+    let kind_v = match kind {
+        "pairpos1" if variant == 5 => "pairpos1-giant-set".to_string(),
+        _ => kind.to_string(),
+    };
+    run_scenario(s, rng, &kind_v, &tag, specs);
+}
+
+pub fn run(cfg: &Config, s: &mut Session, rng: &mut Rng) {
+    if let Ok(r) = std::env::var("C16_E2E_REPLAY") {
+        // kind:permille:variant:0xSTATE
+        let f: Vec<&str> = r.split(':').collect();
+        if f.len() == 4 {
+            let st = u64::from_str_radix(f[3].trim_start_matches("0x"), 16).unwrap_or(0);
+            let mut r2 = Rng(st);
+            one(s, &mut r2, f[0], f[1].parse().unwrap_or(1000), f[2].parse().unwrap_or(0));
+        }
+        return;
+    }
+    let rounds = if cfg.thorough() { 24 } else { 4 };
+    let t0 = std::time::Instant::now();
+    // deterministic minimal inputs of known defects (regression checks once those are fixed)
+    one(s, rng, "fixed", 0, 0);
+    one(s, rng, "fixed", 0, 1);
+    for round in 0..rounds {
+        for i in 0..20 {
+            one(s, rng, "tiny-pair", 0, i % 4);
+        }
+        for i in 0..8 {
+            one(s, rng, "tiny-markbase", 0, i % 4);
+        }
+        // sizes from just below the 16-bit limit up to ≈ 4 × 64 KiB; later rounds jitter ±10 %
+        let j = |rng: &mut Rng, p: u64| if round == 0 { p } else { p * (90 + rng.below(21)) / 100 };
+        for (p, v) in
+            [(900, 0), (990, 3), (1030, 0), (1100, 2), (1400, 1), (1800, 4), (2300, 3), (2800, 6), (3300, 2), (4000, 1), (3100, 6), (3800, 0)]
+        {
+            let p = j(rng, p);
+            one(s, rng, "pairpos1", p, v);
+        }
+        one(s, rng, "pairpos1", 0, 5);
+        for (p, v) in
+            [(900, 0), (1000, 2), (1050, 0), (1300, 1), (1700, 3), (2200, 0), (2700, 2), (3200, 1), (3600, 3), (4000, 0), (1200, 4), (2600, 4)]
+        {
+            let p = j(rng, p);
+            one(s, rng, "pairpos2", p, v);
+        }
+        for (p, v) in
+            [(900, 0), (1000, 1), (1050, 2), (1300, 3), (1700, 1), (2200, 2), (2700, 0), (3200, 4), (3600, 2), (4000, 0), (2000, 4), (1500, 3)]
+        {
+            let p = j(rng, p);
+            one(s, rng, "markbase", p, v);
+        }
+        for (p, v) in [(500, 0), (700, 1), (900, 0), (900, 1), (1200, 0), (1500, 1)] {
+            let p = j(rng, p);
+            one(s, rng, "multi", p, v);
+        }
+    }
+    if std::env::var("C16_E2E_VERBOSE").is_ok() {
+        eprintln!("e2e total {:.1}s", t0.elapsed().as_secs_f64());
+    }
+}
